@@ -45,6 +45,7 @@ C['C02']=dict(mutants=[
  m('getter-for-name',SCDX,'\t\tName:               n.Name,','\t\tName:               n.GetName(),'),
 ])
 C['C03']=dict(mutants=[
+ m('prerequisite-label-duplicated',EDGE,'\t\treturn "HAS_PREREQUISITE"\n','\t\treturn "PREREQUISITE_FOR"\n','relationship-labels-distinct'),
  m('mark-without-attach',SCDX,'\t\t\t\tdepListCheck[targetID] = struct{}{}\n','\t\t\t\tdepListCheck[targetID] = struct{}{}\n\t\t\t\tstate.addedDict[targetID] = struct{}{}\n','placed-implies-attached'),
  m('registry-wrong-version',WR,'serializers.Store(formats.CDX14JSON, drivers.NewCDX("1.4", formats.JSON))','serializers.Store(formats.CDX14JSON, drivers.NewCDX("1.5", formats.JSON))','registry-agreement'),
  m('relationship-dedupe',S23,'\t\tfor _, dest := range e.To {\n','\t\tseen := map[string]bool{}\n\t\tfor _, dest := range e.To {\n\t\t\tif seen[e.From+dest] {\n\t\t\t\tcontinue\n\t\t\t}\n\t\t\tseen[e.From+dest] = true\n',''),
@@ -125,6 +126,7 @@ C['C09']=dict(mutants=[
  m('len-neq-zero',NODE,'\tif len(n2.Attribution) > 0 {\n\t\tn.Attribution = n2.Attribution\n\t}','\tif len(n2.Attribution) != 0 {\n\t\tn.Attribution = n2.Attribution\n\t}'),
 ])
 C['C10']=dict(mutants=[
+ m('get-edge-returns-copy',NL,'\t\tif e.From == fromElement && e.Type == t {\n\t\t\treturn e\n','\t\tif e.From == fromElement && e.Type == t {\n\t\t\treturn e.Copy()\n','lookup-returns-element'),
  m('update-only-when-different',NL,'\t\tnewnode.Update(ni2[id].Copy())\n','\t\tif !node.Equal(ni2[id]) {\n\t\t\tnewnode.Update(ni2[id].Copy())\n\t\t}\n','intersection-attributes'),
  m('membership-inverted',NL,'\t\tif _, ok := ni2[id]; !ok {\n\t\t\tcontinue\n\t\t}\n\t\t// Clone the node','\t\tif _, ok := ni2[id]; ok {\n\t\t\tcontinue\n\t\t}\n\t\t// Clone the node','intersection-membership'),
  m('update-from-first',NL,'\t\tnewnode.Update(ni2[id].Copy())','\t\tnewnode.Update(ni1[id].Copy())','intersection-attributes'),
@@ -139,6 +141,7 @@ C['C11']=dict(mutants=[
  m('clone-via-append',EDGE,'\ttos := slices.Clone(e.To)','\ttos := append([]string{}, e.To...)'),
 ])
 C['C12']=dict(mutants=[
+ m('contacts-made-with-length',PERS,'\t\tnp.Contacts = []*Person{}\n','\t\tnp.Contacts = make([]*Person, len(p.Contacts))\n','made-with-length-then-appended'),
  m('contacts-len-guard',PERS,'\tif p.Contacts != nil {\n\t\tnp.Contacts = []*Person{}\n\t}','\tif len(p.Contacts) > 0 {\n\t\tnp.Contacts = []*Person{}\n\t}','copy-field-exhaustive'),
  m('node-copy-alias',NODE,'\t\tAttribution:        slices.Clone(n.Attribution),','\t\tAttribution:        n.Attribution,','no-operand-alias-in-result'),
  m('edge-copy-alias',EDGE,'\t\tTo:   slices.Clone(e.To),','\t\tTo:   e.To,','no-operand-alias-in-result'),
